@@ -67,14 +67,18 @@ PROPS = {
                                  "a cycle report is only demanded when cycles are the only defect in the closure (Compile may return on a missing import before any cycle member runs its check)"],
     ),
     "C07": dict(
-        test="TestC07", engine="B", level="fault_enumeration", components="compile",
-        quick_checks=2500, thorough_checks=30000, thorough_timeout=7200,
+        level="fault_enumeration", components="compile",
+        parts=[dict(test="TestC07", engine="B", quick_checks=2500, thorough_checks=30000),
+               # the same test against the build with simulator-visible mutexes (DESIGN.md 2.2)
+               dict(test="TestC07", engine="B", variant="vismutex", quick_checks=1000, thorough_checks=12000)],
+        thorough_timeout=7200,
         rule="a case = valid generated workload (2-7 files) x request x MaxParallelism in {1,2,4} x fault plan of 0-3 faults over "
              "(file, resolver-call ordinal): resolver error / resolver panic / read error at byte k / read panic at byte k / benign "
              "delivery shapes (short reads, (0,nil) reads, (n,EOF), Close error) / context cancellation at decision k (incl. before "
              "start and after return) x scheduler tape; distinct = distinct (workload, plan, trace hash); non-trivial = at least one "
              "non-masked fault fired, or the cancellation was delivered, before Compile returned",
-        assumptions=_ASSUME_B + ["a panicking Close() is outside the property's fault model (resolver, accessor, reader failure, cancellation) and is not injected",
+        assumptions=_ASSUME_B + ["the second part runs the same test against the build with simulator-visible mutexes (see C05)",
+                                 "a panicking Close() is outside the property's fault model (resolver, accessor, reader failure, cancellation) and is not injected",
                                  "resolver errors for google/protobuf/* are masked by WithStandardImports and failures inside the descriptor.proto probe are ignored by design; both count as masked"],
     ),
     "C08": dict(
